@@ -23,7 +23,7 @@ func cmdFsCases(args []string) error {
 	tmp := fl.String("tmp", "", "scratch dir for disk backends")
 	every := fl.Int("every", 1, "take every n-th case")
 	offset := fl.Int("offset", 0, "offset for sampling")
-	skipPre := fl.Bool("diskpre", false, "apply the C02 preconditions (skip cases outside them)")
+	skipPre := fl.Bool("diskpre", false, "C02 mode: outside the preconditions only clean failure is required; cases outside the check's assumption are skipped")
 	workers := fl.Int("workers", 8, "parallel workers")
 	fl.Parse(args)
 	f, err := os.Open(*in)
@@ -35,7 +35,7 @@ func cmdFsCases(args []string) error {
 	var mu sync.Mutex
 	byKey := map[string]int{}
 	examples := map[string][]*fsx.Failure{}
-	total, executed, skipped := 0, 0, 0
+	total, executed, skipped, cleanRuns := 0, 0, 0, 0
 	opsSeen := map[string]int{}
 	var samples []string
 	current := sync.Map{}
@@ -61,7 +61,7 @@ func cmdFsCases(args []string) error {
 			return
 		}
 		for _, k := range kinds {
-			if *skipPre && !fsx.DiskPre(c) {
+			if *skipPre && !c.Assumed {
 				mu.Lock()
 				skipped++
 				mu.Unlock()
@@ -69,7 +69,15 @@ func cmdFsCases(args []string) error {
 			}
 			id := k + " " + c.Op.String() + " on " + c.Prev.Key()
 			current.Store(id, id)
-			fl := fsx.RunCase(c, k, *tmp, d)
+			var fl *fsx.Failure
+			if *skipPre && !c.Pre {
+				fl = fsx.RunCaseClean(c, k, *tmp, d)
+				mu.Lock()
+				cleanRuns++
+				mu.Unlock()
+			} else {
+				fl = fsx.RunCase(c, k, *tmp, d)
+			}
 			current.Delete(id)
 			mu.Lock()
 			executed++
@@ -101,7 +109,7 @@ func cmdFsCases(args []string) error {
 	}
 	pool.Close()
 	out := map[string]interface{}{
-		"cases_total": total, "hangs": pool.Hangs(), "executed": executed, "skipped_pre": skipped,
+		"cases_total": total, "clean_runs": cleanRuns, "hangs": pool.Hangs(), "executed": executed, "skipped_pre": skipped,
 		"failures_by_key": byKey, "examples": examples, "ops": opsSeen, "samples": samples,
 	}
 	b, _ := json.Marshal(out)
